@@ -55,13 +55,13 @@ def run(ctx):
     for cfg in cfgs:
         fs = ctx.facts(cfg)
         bodies = {r: ctx.look(fs.one(r'^complete_shell::%s$' % r)) for r in RENDERERS}
-        t1(ctx, cfg, fs, bodies)
-        t2(ctx, cfg, fs, bodies)
-        t3(ctx, cfg, fs, bodies)
-        t4(ctx, cfg, fs, bodies)
-        t5(ctx, cfg, fs)
-        t6(ctx, cfg, fs)
-        t7(ctx, cfg, fs)
+        ctx.guard(t1, ctx, cfg, fs, bodies)
+        ctx.guard(t2, ctx, cfg, fs, bodies)
+        ctx.guard(t3, ctx, cfg, fs, bodies)
+        ctx.guard(t4, ctx, cfg, fs, bodies)
+        ctx.guard(t5, ctx, cfg, fs)
+        ctx.guard(t6, ctx, cfg, fs)
+        ctx.guard(t7, ctx, cfg, fs)
 
 def arg_descr(body, op, bb):
     rs = provenance(body, op, bb, 'term')
